@@ -170,6 +170,9 @@ def run(ctx):
     )
     ctx.trusted = ["harness/project.py", "TLC"]
     ctx.assumptions = ["comparisons inside the fixed-point band (~5e-4 of the score) are undecided, never alarms"]
+    # encoding layer (see c02): CNEncoding refines CNModel; per-rule witnesses replayed into solve_cn_model
+    from . import enc
+    enc.run_cn(ctx)
     tasks = []
     plan = [("toy", 10 if quick else 60, 100), ("cyp2a6", 3 if quick else 20, 40), ("gstm1", 2 if quick else 10, 40), ("cyp2d6", 6 if quick else 60, 12 if quick else 30)]
     for gname, ntask, n in plan:
@@ -239,6 +242,9 @@ def replay(path):
     aldyenv.setup()
     with open(path) as f:
         m = json.load(f)["case"]
+    if m.get("enc"):
+        from . import enc
+        return enc.replay(path, "C03")
     if "route" in m:
         print("route cases are replayed by running the check")
         return 0
